@@ -5,6 +5,9 @@ sys.path.insert(0, '/verif')
 from pyvc import source, verify, lemmas
 from pyvc.api import SPECS
 import contracts  # noqa
+import importlib, os
+for _m in filter(None, os.environ.get('PYVC_EXTRA', '').split(',')):
+    importlib.import_module(_m)
 
 table = source.SourceTable()
 what = sys.argv[1:]
